@@ -143,7 +143,7 @@ def process_top(job):
                     if rr['confirms']:
                         w['replay_state'] = stt
                         break
-                if not w['replay'].get('confirms') and 'state' in w and len(e['witnesses']) < 2:
+                if not w['replay'].get('confirms') and 'state' in w and len(e['witnesses']) < 2 and not getattr(top, 'extra', {}).get('no_native_search'):
                     try:
                         hit = R.search_near(top, C.REG, w['state'], lambda rr_: R.confirms(ob.name, ob.kind, ob.info, rr_))
                     except Exception:  # noqa: BLE001
